@@ -238,7 +238,22 @@ def _gen_slow_second(rng, tier):
                "truth": {"kind": "slow-second", "tags": [base + k for k in range(n)]}, "sched": {"seed": rng.randrange(1 << 30)}, "horizon": 100.0}
 
 
+def _gen_self_answered(rng, tier):
+    """A request the server answers itself (Host not among server_names: 404, announcing close) whose body the client never finishes: the
+    announced close happens - the client that has its final answer is not waited for."""
+    for i in range(12 if tier == "quick" else 200):
+        tag = 5800000 + i
+        framing = rng.choice(["cl", "chunked"])
+        head = b"POST /t%d HTTP/1.1\r\nHost: other.example\r\n" % tag + (b"Content-Length: 100\r\n\r\n0123456789" if framing == "cl" else b"Transfer-Encoding: chunked\r\n\r\n5\r\nhello\r\n")
+        split = rng.choice([None, len(head) - 10]) if framing == "cl" else None
+        client = ([["feed", head]] if split is None else [["feed", head[:split]], ["settle"], ["feed", head[split:]]]) + [["settle"], ["advance", 2.0], ["settle"]]
+        yield {"family": "self-answered.incomplete-body." + framing, "backends": ["asyncio", "trio"], "config": {"keep_alive_timeout": 5000, "server_names": ["h.example"]},
+               "conn": {}, "apps": {"default": [["recv_until_end"], ["respond", 200, [], b"d"]]}, "client": client,
+               "truth": {"kind": "self-answered", "tag": tag}, "sched": {"seed": rng.randrange(1 << 30)}, "horizon": 100.0}
+
+
 def gen(rng, tier):
+    yield from _gen_self_answered(rng, tier)
     yield from _gen_slow_second(rng, tier)
     yield from _gen_app_aborted(rng, tier)
     yield from _gen_unread_upload(rng, tier)
@@ -299,7 +314,7 @@ def nontrivial(case, obs):
     t = case["truth"]
     if t.get("kind") == "aborted":
         return any(e[2] == "net" and e[3] == "write_error" for e in obs.trace.events)
-    if t.get("kind") in ("malformed", "early-answer", "unread-upload", "app-aborted", "slow-second"):
+    if t.get("kind") in ("malformed", "early-answer", "unread-upload", "app-aborted", "slow-second", "self-answered"):
         return True
     return len(t["requests"]) > 1 or t["maxreq"] == 1 or any(wants_close(r) or r["version"] == "1.0" for r in t["requests"])
 
@@ -378,6 +393,14 @@ def check(case, obs, tally):
         elif obs.closed_at is None:
             out.append({"clause": "must-close", "sig": "C06.not-closed-after-must-close/early-answer",
                         "detail": "request body incomplete, response complete, connection still open at quiescence"})
+        return out
+    if t.get("kind") == "self-answered":
+        tally.clause("must-close")
+        head = bytes(obs.outbytes)
+        if not head.startswith(b"HTTP/1.1 404") or b"connection: close" not in head.lower() or obs.closed_at is None or obs.app_events(kind="start"):
+            out.append({"clause": "must-close", "sig": "C06.self-answered/not-closed-after-announcing-close",
+                        "detail": "request for a Host not served here, body never completed: response %r, connection closed at %r, applications started %d" % (
+                            head[:60], obs.closed_at, len(obs.app_events(kind="start")))})
         return out
     if t.get("kind") == "slow-second":
         tally.clause("serial")
